@@ -14,14 +14,14 @@ SAMPLE_FAULTS = {
     'file_not_found': 'not found', 'too_few_events': 'lower than 400', 'gate_fraction': 'gate fraction', 'units': 'not recognized',
     'beads_without_curve': 'not available', 'channel_without_curve': 'no standard curve', 'other_instrument': 'Instruments for',
     'amplifier': 'Amplification type', 'voltage': 'Detector voltage', 'beads_failed': 'not available',
-    'path_is_directory': 'not found', 'path_through_file': 'not found', 'gate_fraction_tiny': 'gate fraction', 'gate_fraction_above': 'gate fraction', 'units_near_miss': 'not recognized'}
+    'too_few_events_380': 'lower than 400', 'too_few_events_399': 'lower than 400', 'path_is_directory': 'not found', 'path_through_file': 'not found', 'gate_fraction_tiny': 'gate fraction', 'gate_fraction_above': 'gate fraction', 'units_near_miss': 'not recognized'}
 BEADS_FAULTS = {'file_not_found': 'not found', 'too_few_events': 'lower than 400', 'gate_fraction': 'gate fraction', 'unequal_mef': 'same number'}
 
 
 FAULT_OF_MESSAGE = [('not found', 'fileNotFound'), ('lower than 400', 'tooFewEvents'), ('gate fraction', 'gateFraction'), ('not recognized', 'unitsNotRecognized'),
                     ('not available', 'mefNotAvailable'), ('no standard curve', 'noCurveForChannel'), ('Instruments for', 'otherInstrument'),
                     ('Amplification type', 'amplificationType'), ('Detector voltage', 'detectorVoltage')]
-FILES = {'s0.fcs': 600, 's1.fcs': 600, 'nope.fcs': None, 'small.fcs': 120, 'volt.fcs': 600, 'lin.fcs': 600}
+FILES = {'s0.fcs': 600, 's1.fcs': 600, 'nope.fcs': None, 'small.fcs': 120, 'volt.fcs': 600, 'lin.fcs': 600, 'n380.fcs': 380, 'n399.fcs': 399}
 UNIT_CELLS = [None, None, 'MEF', 'mef', 'Mef', 'a.u.', 'AU', 'RFI', 'rfi', 'Channel', 'furlongs', 'MEFL', '', 'a.u', '.au', 'u', 'rf', 'me', 'hannel', ' ']
 
 
@@ -57,6 +57,8 @@ class Setup:
         for i in range(3):
             ex.write_fcs('s%d.fcs' % i, 'FC001', n=600, voltage=450, seed=seed + 10 + i)
         ex.write_fcs('small.fcs', 'FC001', n=120, seed=seed + 20)
+        ex.write_fcs('n380.fcs', 'FC001', n=380, seed=seed + 23)        # between the gate's own limit (350) and the documented 400
+        ex.write_fcs('n399.fcs', 'FC001', n=399, seed=seed + 24)
         ex.write_fcs('volt.fcs', 'FC001', n=600, voltage=620, seed=seed + 21)
         ex.write_fcs('lin.fcs', 'FC001', n=600, voltage=450, log_fl=False, seed=seed + 22)
         import os as _os
@@ -86,6 +88,10 @@ class Setup:
             return R(sid, 'FC001', 'nope.fcs', u, 'B1')
         if kind == 'too_few_events':
             return R(sid, 'FC001', 'small.fcs', u, 'B1')
+        if kind == 'too_few_events_380':
+            return R(sid, 'FC001', 'n380.fcs', u, 'B1')
+        if kind == 'too_few_events_399':
+            return R(sid, 'FC001', 'n399.fcs', u, 'B1')
         if kind == 'path_is_directory':
             return R(sid, 'FC001', 'subdir', u, 'B1')                  # names an existing directory
         if kind == 'path_through_file':
@@ -174,6 +180,8 @@ class Prop(common.PropertyCheck):
         first = {'file': 's0.fcs', 'beads': 'B1', 'units': {'FL1': 'MEF', 'FL2': None, 'FL3': None}, 'gate': 'ok'}
         for others in (['B1b', 'BNOMEF'], ['BFAIL', 'B1b', 'BI2'], ['B1b', 'B1']):
             yield {'k': 'combo', 'rows': [first] + [dict(first, beads=b) for b in others]}
+        plain = {'file': 's1.fcs', 'units': {'FL1': 'RFI', 'FL2': 'a.u.', 'FL3': 'Channel'}, 'gate': 'ok'}
+        yield {'k': 'combo', 'rows': [dict(plain, beads=b) for b in ('BFAIL', 'BNOMEF', 'BI2', 'B1')] + [dict(plain, file='n380.fcs', beads='B1'), dict(plain, file='n399.fcs', beads='B1')]}
         # rows with several simultaneous faults: which one is reported is decided by the model's decision table
         for _ in range(self.budget(6, 80)):
             rows = []
